@@ -400,8 +400,8 @@ def run(chk):
     model = Proc([common.build_model("c11")], timeout=60.0)
     mos = common.build_mos()
     thorough = chk.tier == "thorough"
-    nprog = 600 if thorough else 110
-    nbuild = 120 if thorough else 24
+    nprog = 600 if thorough else 80
+    nbuild = 120 if thorough else 20
     workdir = os.path.join(common.CACHE, "work")
     os.makedirs(workdir, exist_ok=True)
     dist = {"programs": 0, "rejected": 0, "entries": 0, "files": 0, "bytes": 0, "relocated_segments": 0, "multi_segment": 0,
